@@ -135,7 +135,7 @@ Definition check_shared_conc (c : list (nat * Z) * list (nat * Z)) : bool :=
 (* case kind 7: instance identities built by Graph.createNodes / createConnector.  script = the create calls in
    the order they were made: (pipeline, kind * 1000 + component) for receiver (1) / processor (2) / exporter (3),
    (exporter pipeline, 4000000 + receiver pipeline * 1000 + component) for a connector; observed = every
-   (node key, pipeline named by the node's InstanceID) pair, as a set. *)
+   (pipeline named by the node's InstanceID, node key) pair, as a set (the key sits in the Z slot: no big unary nat). *)
 Definition instop_of (p : nat * Z) : option inst_op :=
   let z := snd p in
   if Z.leb 4000000 z then
@@ -147,7 +147,7 @@ Definition instop_of (p : nat * Z) : option inst_op :=
        | _ => None
        end.
 
-Definition pairsZ (l : list (nat * nat)) : list (nat * Z) := map (fun q => (fst q, Z.of_nat (snd q))) l.
+Definition pairsZ (l : list (Z * nat)) : list (nat * Z) := map (fun q => (snd q, fst q)) l.   (* (pipeline, node key) *)
 Definition incl_b (a b : list (nat * Z)) : bool := forallb (fun x => existsb (pairNZ_eqb x) b) a.
 
 Definition check_instances (c : list (nat * Z) * list (nat * Z)) : bool :=
@@ -168,6 +168,63 @@ Definition check_case (c : nat * (list (nat * Z) * list (nat * Z))) : bool :=
   | 6 => check_shared_conc (snd c)
   | _ => check_instances (snd c)
   end.
+
+(* ---- decidable checkers of the property's clauses over the OBSERVED behaviour ---------------------------
+   They use only the hand-written diagram (C11/Diagram.v), never the model's step functions, so they are an
+   oracle that does not trust the model; C11/ProofsPropOk.v proves them equivalent to the Prop-level clauses.
+   prop_code = 0: every clause holds on this observation; otherwise the first violated clause:
+     1 does not begin with Starting | 2 repeats the current status | 3 leaves PermanentError other than to Stopping
+     4 an event follows FatalError / Stopped | 5 Starting again | 6 another edge that is not in the diagram
+     7 observation does not decode | 8 instances of one shared component end in different statuses
+     9 a pipeline the component is used in is not named by its InstanceID *)
+Fixpoint paths_code (m : rstate) (es : list (nat * status)) : nat :=
+  match es with
+  | [] => 0
+  | (i, s) :: r =>
+      let a := rget i m in
+      if diagram a s then paths_code (rset i s m) r
+      else if status_eqb a SNone then 1
+      else if status_eqb a s then 2
+      else if status_eqb a PermanentError then 3
+      else if status_eqb a FatalError || status_eqb a Stopped then 4
+      else if status_eqb s Starting then 5
+      else 6
+  end.
+
+Definition obs_events (obs : list (nat * Z)) : option (list (nat * status)) :=
+  map_opt (fun p => option_map (fun s => (fst p, s)) (status_of_Z (snd p))) obs.
+
+(* what the state machines BEHIND the hosts of a shared component accept (diagram acceptor per instance) *)
+Fixpoint accept_run (m : rstate) (rs : list (nat * status)) : rstate :=
+  match rs with
+  | [] => m
+  | (i, s) :: r => accept_run (if diagram (rget i m) s then rset i s m else m) r
+  end.
+
+Definition shared_code (rs : list (nat * status)) : nat :=
+  let m := accept_run [] rs in
+  match rs with
+  | [] => 0
+  | (i0, _) :: _ => if forallb (fun i => status_eqb (rget i m) (rget i0 m)) (map fst rs) then 0 else 8
+  end.
+
+Definition inst_code (os : list inst_op) (obs : list (nat * Z)) : nat :=
+  if forallb (fun o => forallb (fun p => existsb (pairNZ_eqb (p, ikey o)) obs) (ipipes o)) os then 0 else 9.
+
+Definition prop_code (c : nat * (list (nat * Z) * list (nat * Z))) : nat :=
+  let '(ls, obs) := snd c in
+  match fst c with
+  | 0 | 2 | 3 | 5 => match obs_events obs with Some es => paths_code [] es | None => 7 end
+  | 1 | 4 | 6 => match obs_events obs with Some rs => shared_code rs | None => 7 end
+  | _ => match map_opt instop_of ls with Some os => inst_code os obs | None => 7 end
+  end.
+
+Definition prop_ok (c : nat * (list (nat * Z) * list (nat * Z))) : bool := Nat.eqb (prop_code c) 0.
+
+(* (a, b) pairs on which the table translated from the current source and the documented diagram differ *)
+Definition table_diff : list (Z * Z) :=
+  flat_map (fun a => flat_map (fun b => if Bool.eqb (allowed a b) (diagram a b) then []
+                                        else [(Z_of_status a, Z_of_status b)]) all_status) all_status.
 
 (* model outputs, for replay files *)
 Definition model_out (c : nat * (list (nat * Z) * list (nat * Z))) : option (list (nat * Z)) :=
